@@ -22,8 +22,8 @@ Qed.
 Lemma access_body_sel W f E a0 rest :
   access_body W f E (a0 :: rest) =
   sel (object_key a0)
-      (let '(c, n) := value_access big_fuel (ec_imports E) rest in add_err n ;;; ret c)
-      (let '(c, n) := value_access big_fuel (ec_context E) rest in add_err n ;;; ret c)
+      (let '(c, n) := value_access (va_need (ec_imports E) rest) (ec_imports E) rest in add_err n ;;; ret c)
+      (let '(c, n) := value_access (va_need (ec_context E) rest) (ec_context E) rest in add_err n ;;; ret c)
       (walk W f E (EObj (ec_values E)) false (ec_base E) (ec_name E, []) (a0 :: rest)).
 Proof. reflexivity. Qed.
 
@@ -100,7 +100,7 @@ Proof.
   - rewrite !interp_go_nil. now apply rel_ret.
   - cbn [forallb snd] in Hnc. apply andb_true_iff in Hnc. destruct Hnc as [Hp Hr].
     rewrite !interp_go_ref. apply rel_bind_eq; [now apply HA|]. intros pv.
-    destruct (to_string big_fuel pv) as [[s u] sc]. now apply IH.
+    destruct (to_string (ts_need pv) pv) as [[s u] sc]. now apply IH.
   - cbn [forallb snd] in Hnc. rewrite !interp_go_text. now apply IH.
 Qed.
 
@@ -153,7 +153,7 @@ Proof.
   intros HE. unfold open_tail. rewrite <- HCk, <- (es_name _ _ HE). destruct r as [iv ok].
   destruct prov as [p|]; [|now apply rel_ret].
   destruct (negb ok || contains_unknowns iv || w_check W1); [now apply rel_ret|].
-  destruct (export big_fuel iv) as [[s u sc|s u l|s u m]|].
+  destruct (export_t iv) as [[s u sc|s u l|s u m]|].
   - apply rel_err. now apply rel_ret.
   - apply rel_err. now apply rel_ret.
   - apply rel_call; [exact HF1|exact HF2|]. apply rel_emit; [constructor|].
@@ -184,7 +184,7 @@ Proof.
   rewrite !access_body_sel, !sel_spec. cbn [path_no_ctx] in Hp.
   destruct (object_key a0) as [k|].
   - destruct (String.eqb k "imports").
-    + rewrite <- (es_imports _ _ HE). destruct (value_access big_fuel (ec_imports E1) rest) as [c n].
+    + rewrite <- (es_imports _ _ HE). destruct (value_access (va_need (ec_imports E1) rest) (ec_imports E1) rest) as [c n].
       apply rel_add_err. now apply rel_ret.
     + apply negb_true_iff in Hp. rewrite Hp.
       rewrite <- (es_name _ _ HE), <- (es_values _ _ HE), <- (es_base _ _ HE).
@@ -194,16 +194,16 @@ Proof.
 Qed.
 
 Lemma rel_value_tail (v : chain) (accs : path) :
-  mr (let '(c, n) := value_access big_fuel v accs in add_err n ;;; ret c)
-     (let '(c, n) := value_access big_fuel v accs in add_err n ;;; ret c).
-Proof. destruct (value_access big_fuel v accs) as [c n]. apply rel_add_err. now apply rel_ret. Qed.
+  mr (let '(c, n) := value_access (va_need v accs) v accs in add_err n ;;; ret c)
+     (let '(c, n) := value_access (va_need v accs) v accs in add_err n ;;; ret c).
+Proof. destruct (value_access (va_need v accs) v accs) as [c n]. apply rel_add_err. now apply rel_ret. Qed.
 
 Lemma step_walk f : P_expr f -> P_walk f -> P_walk (S f).
 Proof.
   intros HP HWk E1 E2 rx rsec rbase rid accs HE Hid Hx. rewrite !walk_S. unfold walk_body.
   destruct accs as [|a rest]; [now apply HP|].
-  assert (Dflt : mr (v <- eval_expr W1 f E1 rx rsec rbase rid ;; let '(c, n) := value_access big_fuel v (a :: rest) in add_err n ;;; ret c)
-                    (v <- eval_expr W2 f E2 rx rsec rbase rid ;; let '(c, n) := value_access big_fuel v (a :: rest) in add_err n ;;; ret c)).
+  assert (Dflt : mr (v <- eval_expr W1 f E1 rx rsec rbase rid ;; let '(c, n) := value_access (va_need v (a :: rest)) v (a :: rest) in add_err n ;;; ret c)
+                    (v <- eval_expr W2 f E2 rx rsec rbase rid ;; let '(c, n) := value_access (va_need v (a :: rest)) v (a :: rest) in add_err n ;;; ret c)).
   { apply rel_bind_eq; [now apply HP|]. intros v. apply rel_value_tail. }
   destruct rx; try exact Dflt.
   - (* EArr *)
